@@ -31,6 +31,7 @@ type multicastProxy struct {
 	udpConn  *net.UDPConn
 	destAddr [rtpChannelCount]*net.UDPAddr
 	cid      media.CID
+	source   *media.Stream // 被消费的流；同一路径可能已被新的发布者替换，不能再按路径查找
 
 	multicastLock sync.Mutex
 	members       []io.Closer
@@ -63,6 +64,7 @@ func (proxy *multicastProxy) AddMember(m io.Closer) {
 		}
 
 		proxy.members = append(proxy.members, m)
+		proxy.source = stream
 		proxy.cid = stream.StartConsume(proxy, media.RTPPacket,
 			"net = rtsp-multicast, "+proxy.multicastIP)
 		proxy.closed = false
@@ -144,9 +146,10 @@ func (proxy *multicastProxy) close() {
 	}
 	proxy.closed = true
 
-	stream := media.Get(proxy.path)
-	if stream != nil {
-		stream.StopConsume(proxy.cid)
+	// 从开始消费的那个流上停止；consumer id 按流编号，路径下此时登记的可能是另一个流
+	if proxy.source != nil {
+		proxy.source.StopConsume(proxy.cid)
+		proxy.source = nil
 	}
 
 	if proxy.udpConn != nil {
